@@ -16,6 +16,8 @@ DISPATCH = {
     "C02": ("harness.props.g1", "run"),
     "C04": ("harness.props.g1", "run"),
     "C06": ("harness.props.g1", "run"),
+    "C03": ("harness.props.g1", "run"),
+    "C05": ("harness.props.g1", "run"),
 }
 
 
